@@ -38,7 +38,7 @@ Definition ikind_eqb (a b : ikind) : bool :=
   end.
 
 (* default value literal of a `puppet:"value=>..."` tag *)
-Inductive lit := LInt (z : Z) | LStr (s : str) | LBool (b : bool).
+Inductive lit := LInt (z : Z) | LStr (s : str) | LBool (b : bool) | LFloat (bits : Z).
 
 Inductive gty :=
 | GInt (k : ikind) | GFloat32 | GFloat64 | GString | GBool
@@ -618,30 +618,144 @@ Fixpoint set_nth {A} (i : nat) (x : A) (l : list A) : list A :=
   | y :: l', S i' => y :: set_nth i' x l'
   end.
 
-Fixpoint args_ok (order : list (nat * gfield)) (args : list value) : bool :=
-  match order, args with
-  | [], [] => true
-  | p :: order', a :: args' => inst (attr_ty (snd p)) a && args_ok order' args'
+(* ---- declared defaults (reflector.go:367 the value tag of the field, :392 the implicit undef of an Optional) *)
+Definition lit_value (l : lit) : value :=
+  match l with LInt z => VInt z | LStr s => VStr s | LBool b => VBool b | LFloat b => VFloat b end.
+Definition attr_default (f : gfield) : option value :=
+  match f_tvalue f with
+  | Some l => Some (lit_value l)
+  | None => if is_ptr_ty (f_ty f) then Some VUndef else None
+  end.
+(* a.Value() where the attribute has one, else undef (objectvalue.go:308) *)
+Definition default_or_undef (f : gfield) : value :=
+  match attr_default f with Some d => d | None => VUndef end.
+
+(* Go == on float64 bit images: NaN differs from everything, -0 == +0 *)
+Definition f_is_zero (b : Z) : bool := (b =? 0) || (b =? two63).
+Definition f_eq (a b : Z) : bool :=
+  negb (f_is_nan a) && negb (f_is_nan b) && ((a =? b) || (f_is_zero a && f_is_zero b)).
+(* px.Value.Equals between a declared default (a scalar or undef) and a value: integertype.go:335, floattype.go:229,
+   stringtype.go:449, booleantype.go:198, undeftype.go:85 - each only equals a value of its own Go type *)
+Definition default_eqb (d v : value) : bool :=
+  match d, v with
+  | VUndef, VUndef => true
+  | VInt x, VInt y => x =? y
+  | VFloat x, VFloat y => f_eq x y
+  | VStr x, VStr y => str_eqb x y
+  | VBool x, VBool y => Bool.eqb x y
   | _, _ => false
   end.
+(* attribute.go:93 Default(value) = a.value != nil && a.value.Equals(value) *)
+Definition is_default (f : gfield) (v : value) : bool :=
+  match attr_default f with Some d => default_eqb d v | None => false end.
 
-(* objectvalue.go:298 setValues: rf.ReflectTo(values[i], struct.FieldByName(attrs[i].GoName())) in positional order *)
-Fixpoint set_values (order : list (nat * gfield)) (args : list value) (acc : list gval) : res (list gval) :=
+(* objecttype.go createAttributesInfo: the number of attributes without a value (they come first) *)
+Definition required_count (fs : list gfield) : nat :=
+  length (filter (fun p => negb (attr_has_value (snd p))) (indexed_fields fs)).
+
+(* the parameters of the positional creator (objecttype.go:1186): one per attribute, those from RequiredCount on are
+   optional; every argument given must be an instance of the type of its attribute *)
+Fixpoint args_ok (order : list (nat * gfield)) (args : list value) : bool :=
   match order, args with
-  | p :: order', a :: args' =>
-      rbind (reflect_to (f_ty (snd p)) a) (fun x => set_values order' args' (set_nth (fst p) x acc))
-  | _, _ => Ok acc
+  | _, [] => true
+  | p :: order', a :: args' => inst (attr_ty (snd p)) a && args_ok order' args'
+  | [], _ :: _ => false
   end.
 
-(* px.New(type, args...) with ONE ARGUMENT PER ATTRIBUTE through the positional creator (objecttype.go:1185: every
-   argument must be an instance of the type of its attribute, else the dispatcher reports IllegalArguments):
-   objectvalue.go:43 AllocObjectValue = the zero struct (addressable), :285 Initialize -> setValues.
-   Calls with fewer arguments (defaults) and the named-argument creator are not modelled. *)
+(* objectvalue.go:298 setValues: rf.ReflectTo(v, struct.FieldByName(attrs[i].GoName())) in positional order, where
+   v = values[i] while i < len(values), and beyond that the attribute's value, or undef when it has none (:304-:311).
+   objectvalue.go:103 fillValueSlice, called before (:290), only replaces positions that were NOT given (nil): a given
+   value, undef included, stays as it is; the positional creator never hands over a nil. *)
+Fixpoint set_values (order : list (nat * gfield)) (args : list value) (acc : list gval) : res (list gval) :=
+  match order with
+  | [] => Ok acc
+  | p :: order' =>
+      let a := match args with a :: _ => a | [] => default_or_undef (snd p) end in
+      rbind (reflect_to (f_ty (snd p)) a) (fun x => set_values order' (tl args) (set_nth (fst p) x acc))
+  end.
+
+(* px.New(type, args...) through the positional creator (objecttype.go:1157 NewObjectValue; the dispatcher reports
+   IllegalArguments unless RequiredCount <= len(args) <= len(attributes) and every argument is an instance of the type
+   of its attribute): objectvalue.go:43 AllocObjectValue = the zero struct (addressable), :285 Initialize -> setValues. *)
 Definition obj_new (n : str) (fs : list gfield) (args : list value) : res value :=
-  if args_ok (attr_order fs) args then
+  if (required_count fs <=? length args)%nat && args_ok (attr_order fs) args then
     rbind (set_values (attr_order fs) args (map (fun f => zero_of (f_ty f)) fs))
           (fun vs => Ok (VObj n true (GVStruct vs)))
   else Err EArgs.
+
+(* attributesinfo.go:55-61 (also what a caller does who leaves out optional arguments): the longest run of trailing
+   values, at positions >= RequiredCount, that equal the default of their attribute is cut off.  i = position of the
+   head of order. *)
+Fixpoint cut_defaults (i req : nat) (order : list (nat * gfield)) (va : list value) : list value :=
+  match order, va with
+  | p :: order', v :: va' =>
+      match cut_defaults (S i) req order' va' with
+      | [] => if (req <=? i)%nat && is_default (snd p) v then [] else [v]
+      | r => v :: r
+      end
+  | _, _ => []
+  end.
+
+(* objectvalue.go:372 reflectedObject.InitHash: name => wrapReflected(field) for the attributes, in positional order,
+   whose value does not equal the declared default (:392) *)
+Definition obj_init_hash (ffmt : Z -> str) (a : bool) (fs : list gfield) (vs : list gval) : list (value * value) :=
+  flat_map (fun p => let v := set_addr a (wrap_reflected ffmt (f_ty (snd p)) (nth (fst p) vs GVOutside)) in
+                     if is_default (snd p) v then [] else [(VStr (attr_name (snd p)), v)])
+           (attr_order fs).
+
+(* Hash.Get4(name) *)
+Definition hash_get (k : str) (h : list (value * value)) : option value :=
+  match find (fun e => match fst e with VStr s => str_eqb s k | _ => false end) h with
+  | Some e => Some (snd e)
+  | None => None
+  end.
+
+(* the parameter of the named-argument creator is the init type (objecttype.go:1090 createInitType, a Struct type):
+   the key of an attribute with a value is optional, of one without required; the value of a key is an instance of the
+   attribute's type; the hash has no other keys *)
+Definition init_hash_ok (order : list (nat * gfield)) (h : list (value * value)) : bool :=
+  forallb (fun p => match hash_get (attr_name (snd p)) h with
+                    | Some v => inst (attr_ty (snd p)) v
+                    | None => attr_has_value (snd p)
+                    end) order &&
+  forallb (fun e => match fst e with
+                    | VStr k => existsb (fun p => str_eqb (attr_name (snd p)) k) order
+                    | _ => false
+                    end) h.
+
+(* attributesinfo.go:47 PositionalFromHash: the values by attribute name, fillValueSlice (a name that is absent gets the
+   attribute's value; one that is present keeps what was given, undef included), then the trailing defaults are cut *)
+Definition positional_from_hash (fs : list gfield) (h : list (value * value)) : list value :=
+  cut_defaults 0 (required_count fs) (attr_order fs)
+    (map (fun p => match hash_get (attr_name (snd p)) h with Some v => v | None => default_or_undef (snd p) end)
+         (attr_order fs)).
+
+(* px.New(type, hash): the named-argument creator comes first in the dispatch (objecttype.go:1174); it takes a hash
+   that is an instance of the init type (:1161 coerceTo returns an instance unchanged; newObjectValue2 -> InitFromHash
+   -> setValues(PositionalFromHash)); any other hash is an ordinary single positional argument *)
+Definition obj_new_hash (n : str) (fs : list gfield) (h : list (value * value)) : res value :=
+  if init_hash_ok (attr_order fs) h then
+    rbind (set_values (attr_order fs) (positional_from_hash fs h) (map (fun f => zero_of (f_ty f)) fs))
+          (fun vs => Ok (VObj n true (GVStruct vs)))
+  else obj_new n fs [VHash h].
+
+(* a float default that is a zero equals (Go ==) the zero of the other sign, which the model's values keep apart *)
+Definition defaults_ok (fs : list gfield) : bool :=
+  forallb (fun f => match f_tvalue f with Some (LFloat b) => negb (f_is_zero b) | _ => true end) fs.
+
+(* ---- a destination that was used before *)
+
+(* Reflector.ReflectTo(v, dest) where dest, of type t, holds d (reflector.go:117).  Every ReflectTo method builds the
+   Go value anew and assigns it: integertype.go:360 SetInt / :372 Set(&v), arraytype.go:557 MakeSlice ... :568 Set,
+   hashtype.go:997 MakeMapWithSize ... :1016 Set, objectvalue.go:278 Set, undeftype.go:96 Set(Zero): what the
+   destination held is never read, so d does not occur on the right. *)
+Definition reflect_into (t : gty) (d : gval) (v : value) : res gval := reflect_to t v.
+
+(* the destination after ReflectTo: a ReflectTo that fails panics before its final assignment *)
+Definition dest_after (t : gty) (d : gval) (v : value) : gval :=
+  match reflect_into t d v with Ok x => x | _ => d end.
+(* ... after a sequence of ReflectTo calls *)
+Definition reflect_hist (t : gty) (d : gval) (vs : list value) : gval := fold_left (dest_after t) vs d.
 
 (* the fields are outside the input classes of the open findings (interface{} fields hold anything) *)
 Fixpoint obj_ok (fs : list gfield) (vs : list gval) {struct fs} : bool :=
